@@ -105,6 +105,11 @@ def run(repo, rep):
             if not (served and ts_ok):
                 p2.append('result 0 answered without both tests (served as SCP: %s, a proposed syntax supported: %s)' % (served, ts_ok))
             tsf = expand_items(flds.get('@ts_sub_item', ''))
+            if tsf != ts_item and is_token(tsf) and token_class(tsf) == 'TransferSyntaxSubItem':
+                # a sub-item built anew from the name of the proposed one that was tested carries the same transfer syntax
+                nm = expand_items(dict((f_, v_) for t_, f_, v_ in s.heap if t_ == tsf).get('@name', ''))
+                if nm in ('%s.name' % ts_item, 'uid.UID(%s.name)' % ts_item):
+                    tsf = ts_item
             if tsf != ts_item:
                 p3.append('accepted context returns %s, not the proposed transfer syntax that was tested' % tsf)
             # first such: the inner loop is left right after accepting
